@@ -228,6 +228,8 @@ WHAT = {
     "parsed-as-different-kind": "a string is parsed as a different kind than its 'URI:<kind>:' header names",
     "outside-grammar-accepted": "a string outside the independent grammar is accepted as a known kind (and round-trips)",
     "canonical-string-rejected": "a canonical cap string in a plain context is not recognised as its kind",
+    "unknown-string-resolved-to-known-node": "NodeMaker.create_from_cap turns a string that the parser reports as unknown into a known node",
+    "node-verdict-depends-on-cache": "NodeMaker.create_from_cap answers the same string differently depending on what was resolved before",
     "consistent-prefix-rejected": "a canonical cap under an alleged ro./imm. prefix or deep-immutable context that it already satisfies is not recognised as its kind",
     "unknown-changes-string": "UnknownURI.to_string() differs from the string that was parsed",
     "roundtrip-not-equal": "from_string(c.to_string()) is not equal to c",
@@ -450,6 +452,83 @@ def run(ck):
                 probe(kind, m, mclass, light)
                 ck.hit("mutation:" + mclass)
 
+    # ---- the same prefix table through NodeMaker.create_from_cap, cold and with warm caches
+    # A string that from_string reports as unknown must also be an unknown NODE, and the verdict for a string
+    # must not depend on what the client resolved before (the unprefixed cap still being referenced, or the
+    # prefixed one resolved first).  NodeMaker needs no grid: nodes are lazy.
+    from allmydata.nodemaker import NodeMaker
+
+    def mk():
+        return NodeMaker(None, None, None, None, None, {"k": 3, "n": 10}, None, None)
+
+    def sig(n):
+        """what a caller can see of the node's identity and authority"""
+        def g(name):
+            f = getattr(n, name, None)
+            try:
+                return f() if f else None
+            except AssertionError:
+                return None
+        return (type(n).__name__, bool(g("is_unknown")), g("get_uri"), g("get_write_uri"), g("get_readonly_uri"))
+
+    NM_PREFIXES = [b"", b"ro.", b"imm.", b"ro.ro.", b"imm.ro."]
+    nnm = 3 if ck.tier == "quick" else 20
+    for round_ in range(nnm):
+        for kind in M.KINDS:
+            idx += 1
+            if not ck.mine(idx) and round_ >= 1:
+                continue
+            if ck.out_of_time():
+                break
+            s = M.fmt(kind, M.rand_fields(rng, kind, minimal=False))
+            for pre in NM_PREFIXES:
+                for deep in (False, True):
+                    P = pre + s
+                    cap, exc = call(uri.from_string, P, deep_immutable=deep)
+                    parser_unknown = exc is None and type(cap).__name__ == "UnknownURI"
+                    for slot, args in (("rw", (P, None)), ("ro", (None, P))):
+                        wit = {"kind": kind.name, "input": show(P), "deep_immutable": deep, "slot": slot,
+                               "parser_says": type(exc or cap).__name__}
+                        cold, exc_c = call(lambda: mk().create_from_cap(args[0], args[1], deep_immutable=deep))
+                        if exc_c is not None:
+                            ck.observe("create_from_cap-raised-" + type(exc_c).__name__)
+                            continue
+                        results = [("cold", cold)]
+                        # warm 1: the plain cap (and its plain-context siblings) resolved first and still referenced
+                        nm = mk()
+                        held = [call(nm.create_from_cap, s)[0], call(nm.create_from_cap, None, s)[0],
+                                call(lambda: nm.create_from_cap(s, None, deep_immutable=True))[0]]
+                        results.append(("after the unprefixed cap was resolved and is still referenced",
+                                        call(lambda: nm.create_from_cap(args[0], args[1], deep_immutable=deep))[0]))
+                        # warm 2: every other spelling resolved first on the same NodeMaker
+                        nm2 = mk()
+                        held2 = [call(lambda q=q, d=d: nm2.create_from_cap(q + s, None, deep_immutable=d))[0]
+                                 for q in NM_PREFIXES for d in (False, True) if (q, d) != (pre, deep)]
+                        results.append(("after all other spellings were resolved",
+                                        call(lambda: nm2.create_from_cap(args[0], args[1], deep_immutable=deep))[0]))
+                        for when, n in results:
+                            ck.mon("nodemaker-agrees-with-parser")
+                            if n is None:
+                                ck.observe("create_from_cap-raised-warm")
+                                continue
+                            if parser_unknown:
+                                ck.hit("nodemaker:parser-unknown")
+                                if sig(n)[1] is not True:
+                                    bad("unknown-string-resolved-to-known-node",
+                                        "create_from_cap(%r, slot %s, deep_immutable=%r) %s -> %s with uri %r write_uri %r, "
+                                        "although from_string reports the string as unknown"
+                                        % (show(P), slot, deep, when, sig(n)[0], show(sig(n)[2]), show(sig(n)[3])),
+                                        dict(wit, when=when, parsed_as=sig(n)[0]))
+                            if sig(n) != sig(cold):
+                                bad("node-verdict-depends-on-cache",
+                                    "create_from_cap(%r, slot %s, deep_immutable=%r): cold -> %r, %s -> %r"
+                                    % (show(P), slot, deep, sig(cold)[:2], when, sig(n)[:2]),
+                                    dict(wit, when=when, cold=[show(x) for x in sig(cold)], warm=[show(x) for x in sig(n)]))
+                            elif when != "cold":
+                                ck.hit("nodemaker:warm-lookup")
+                        del held, held2
+                        ck.case("nodemaker-prefix-table", key=("nm", P, deep, slot), nontrivial=True)
+
     # ---- UnknownURI objects
     for u0 in [b"", b"x-tahoe-future:abc", b"ro.x-tahoe-future:abc", b"imm.x-tahoe-future:abc", b"URI:FOO:bar",
                b"URI:", b"URI", b"http://example.org/", b"x-tahoe-future-test-writeable:1",
@@ -493,6 +572,8 @@ def run(ck):
     ck.exhaustive = False
     ck.require_monitor("accept-implies-exact-reserialization", "roundtrip", "roundtrip-under-consistent-prefix")
     ck.require_reach("consistent-prefix:ro.", "consistent-prefix:imm.", "consistent-prefix:none+deep")
+    ck.require_monitor("nodemaker-agrees-with-parser")
+    ck.require_reach("nodemaker:parser-unknown", "nodemaker:warm-lookup")
     ck.require_reach("accepted-as-known-kind", "reported-unknown", "mutation:trailing", "mutation:integer-spelling",
                      "mutation:base32-tail", "mutation:base32-length", "mutation:alleged-prefix",
                      "mutation:mdmf-extension", "mutation:swapped-header", "mutation:insert", "mutation:delete",
@@ -512,6 +593,8 @@ def run(ck):
 #   6. LiteralFileURI.STRING_RE compiled with re.I                -> parsed-as-different-kind ('uri:lit:' header accepted)
 #   7. constraint failures return UnknownURI(s) (prefix stripped) -> unknown-changes-string
 #   8. NUMBER also accepts a leading '+'                          -> accepts-nonroundtrip-other
+#  10. seeded C15-5: NodeMaker cache key built after stripping ro./imm. ('ro.'+write cap answered with the cached
+#      read-write node once the plain cap is live)               -> unknown-string-resolved-to-known-node, node-verdict-depends-on-cache
 #   9. seeded C15-1: 'URI:DIR2-MDMF-RO:' branch guarded by can_be_writeable instead of can_be_mutable
 #      ('ro.'+readcap comes back UnknownURI)                       -> consistent-prefix-rejected
 # Fix validation: with '\\Z' anchors on every STRING_RE and NUMBER=(0|[1-9][0-9]*) the check exits 0 (seeds 0 and 3).
